@@ -1,6 +1,7 @@
 //! dpmc-sync: checks C14 (SyncWrapper) and C15 (sqlite / r2d2 / diesel pools).
 mod c14;
 mod c15;
+mod c15c;
 
 use dpmc::report::{parse_args, run_check, CheckSpec, Scenario, Tier};
 use serde_json::json;
@@ -37,6 +38,19 @@ fn spec_for(prop: &str, tier: Tier) -> Option<CheckSpec> {
                 scenarios.push(Scenario::new(&format!("r2d2/ms{}", ms), "scripted r2d2::ManageConnection; connections may be poisoned, marked has_broken or fail is_valid", 0, 0, move || c15::run_c15::<c15::R2d2>(&s2)));
                 let s3 = c15::C15Scenario { ms, depth: if thorough { 6 } else if ms == 1 { 5 } else { 4 } };
                 scenarios.push(Scenario::new(&format!("diesel-sqlite/ms{}", ms), "real diesel SqliteConnection :memory:; recycling methods Fast / Verified (open transaction), CustomQuery (failing query), CustomFunction (failing check); poisoned or broken connections", 0, 0, move || c15::run_c15::<c15::DieselSqlite>(&s3)));
+            }
+            for panic in [false, true] {
+                let tag = if panic { "panics" } else { "breaks" };
+                let p = if thorough { 4 } else { 3 };
+                let sc = c15c::C15cScenario { panic };
+                let s1 = sc.clone();
+                scenarios.push(Scenario::new(&format!("late-closure/r2d2/{}", tag), "thread level: the user's closure (its future possibly dropped) is still queued or running on the blocking pool while the connection is returned and recycled by the next get(); closures are actors that can hold the wrapper's lock across scheduling points", p, 1, move || c15c::run_c15c::<c15::R2d2>(&s1)));
+                let s2 = sc.clone();
+                scenarios.push(Scenario::new(&format!("late-closure/diesel-sqlite/{}", tag), "same on the real diesel SqliteConnection pool, every recycling method", if thorough { 3 } else { 2 }, 1, move || c15c::run_c15c::<c15::DieselSqlite>(&s2)));
+                if panic {
+                    let s3 = sc.clone();
+                    scenarios.push(Scenario::new("late-closure/sqlite/panics", "same on the real rusqlite pool (a panicking closure is the only way to break a connection there)", if thorough { 3 } else { 2 }, 1, move || c15c::run_c15c::<c15::Sqlite>(&s3)));
+                }
             }
             rule = "every history (depth bound) over get / interact ok / interact panic / interact panic with dropped future / mark broken / return, every recycling method; distinct = distinct operation/result log".into();
             assumptions = vec![
